@@ -379,12 +379,44 @@ Sock *Sim::sock_for(const Addr &dst, int from_host)
 	return nullptr;
 }
 
-static Fate gen_fate(Sim *S, int stream, uint64_t ord, uint64_t now)
+// re-case the letters of the question name of a DNS query (0x20-style), keyed
+void recase_qname(Bytes &d, uint64_t key)
+{
+	if (d.size() < 13) return;
+	size_t o = 12; int guard = 0;
+	while (o < d.size() && d[o] && guard++ < 128) {
+		if (d[o] & 0xc0) break;
+		size_t l = d[o];
+		for (size_t i = 1; i <= l && o + i < d.size(); i++) {
+			uint8_t &c = d[o + i];
+			bool up = (splitmix64(key ^ (o + i) * 0x9e3779b97f4a7c15ull) >> 17) & 1;
+			if (c >= 'a' && c <= 'z' && up) c = (uint8_t)(c - 32);
+			else if (c >= 'A' && c <= 'Z' && !up) c = (uint8_t)(c + 32);
+		}
+		o += l + 1;
+	}
+}
+
+static Fate gen_fate(Sim *S, int stream, uint64_t ord, uint64_t now, const Dgram &d)
 {
 	Fate f;
 	const FaultCfg &c = S->faults;
 	if (!c.enabled() || now < c.t0 || now >= c.t1) return f;
 	uint64_t key = ((uint64_t)stream << 40) ^ ord;
+	if (c.p_redeliv > 0 && d.dst.port == 53 && d.data.size() > 12 && !(d.data[2] & 0x80) && S->U("fate.rd", key) < c.p_redeliv) {
+		int n = 1 + (int)(S->D("fate.rdn", key) % 3);
+		if (S->U("fate.rdmany", key) < 0.08) n += 5;     // an impatient relay hammering
+		for (int i = 0; i < n; i++) {
+			uint64_t k2 = key * 131 + i;
+			Redeliv r;
+			uint64_t md = c.rd_max_delay ? c.rd_max_delay : 1000000;
+			switch (S->D("fate.rdk", k2) % 4) { case 0: r.delay = S->R("fate.rdd", k2, 1, 2000); break; case 1: r.delay = S->R("fate.rdd", k2, 2000, 100000); break; default: r.delay = S->R("fate.rdd", k2, 1, md); }
+			if (S->U("fate.rdid", k2) < c.p_rd_newid) r.idxor = (uint16_t)(1 + S->D("fate.rdidv", k2) % 65535);
+			if (S->U("fate.rdcase", k2) < c.p_rd_recase) r.recase = (S->D("fate.rdcasek", k2) & 0x7fffffffffffull) | 1;
+			if (S->U("fate.rdsrc", k2) < c.p_rd_altsrc) r.altsrc = true;
+			f.redeliv.push_back(r);
+		}
+	}
 	if (S->U("fate.drop", key) < c.p_drop) { f.drop = true; return f; }
 	if (S->U("fate.dup", key) < c.p_dup) { f.dup = 1 + (int)(S->D("fate.dupn", key) % 2); f.dup_delay = S->R("fate.dupd", key, 0, c.max_delay); }
 	if (S->U("fate.delay", key) < c.p_delay) f.extra_delay = S->R("fate.delayd", key, 1, c.max_delay ? c.max_delay : 1);
@@ -397,7 +429,7 @@ void Sim::deliver(Dgram d)
 {
 	Sock *s = sock_for(d.dst, d.src_host);
 	if (!s) { count("net.unroutable"); tracef("LOST %s -> %s len=%zu (no socket)", d.src.str().c_str(), d.dst.str().c_str(), d.data.size()); return; }
-	tracef("DELIVER %s -> %s len=%zu", d.src.str().c_str(), d.dst.str().c_str(), d.data.size());
+	if (trace) tracef("DELIVER %s -> %s len=%zu%s %s", d.src.str().c_str(), d.dst.str().c_str(), d.data.size(), d.redelivery ? " REDELIVERY" : "", trace_decode ? trace_decode(d.data).c_str() : "");
 	for (auto m : monitors) m->on_deliver(d, s);
 	if (s->on_rx) { s->on_rx(d); return; }
 	if (s->rx.size() >= 2048) { s->rx_dropped++; count("net.rxq.full"); return; }
@@ -413,6 +445,10 @@ static void route(Sim *S, Dgram d)
 		if (d.dst.fam == AF_INET && h.ip4.fam && h.ip4.same_ip(d.dst)) dh = h.id;
 		if (d.dst.fam == AF_INET6 && h.ip6.fam && h.ip6.same_ip(d.dst)) dh = h.id;
 	}
+	if (!S->rd_idmap.empty() && d.src.port == 53 && d.data.size() >= 3 && (d.data[2] & 0x80)) {
+		auto it = S->rd_idmap.find({d.dst.str(), (uint16_t)((d.data[0] << 8) | d.data[1])});
+		if (it != S->rd_idmap.end()) { d.data[0] = it->second >> 8; d.data[1] = it->second & 255; S->count("relay.id_restored"); }
+	}
 	d.stream = S->stream_of(d.src_host, dh);
 	d.ordinal = S->stream_next[d.stream]++;
 	d.t_sent = S->now;
@@ -423,11 +459,17 @@ static void route(Sim *S, Dgram d)
 
 	Fate f;
 	auto key = std::make_pair(d.stream, d.ordinal);
-	if (S->explicit_fates) { auto it = S->fates.find(key); if (it != S->fates.end()) f = it->second; }
+	bool listed = false;
+	if (!S->named_fates.empty()) {
+		std::string nk = (d.src_host >= 0 ? S->hosts[d.src_host].name : "#" + std::to_string(d.src_host)) + ">" + (dh >= 0 ? S->hosts[dh].name : "#" + std::to_string(dh)) + "#" + std::to_string(d.ordinal);
+		auto it = S->named_fates.find(nk);
+		if (it != S->named_fates.end()) { f = it->second; listed = true; }
+	}
+	if (S->explicit_fates || listed) { }
 	else {
 		auto it = S->fates.find(key);
 		if (it != S->fates.end()) f = it->second;
-		else { f = gen_fate(S, d.stream, d.ordinal, S->now); if (S->gen_mutator) S->gen_mutator(d, f); }
+		else { f = gen_fate(S, d.stream, d.ordinal, S->now, d); if (S->gen_mutator) S->gen_mutator(d, f); }
 	}
 	if (f.has_replace) { d.data = f.replace; S->count("fault.replace"); }
 	if (!f.is_default()) { S->fired.push_back({key, f}); if (S->on_fired) S->on_fired(key, f); }
@@ -443,6 +485,20 @@ static void route(Sim *S, Dgram d)
 		Dgram c = d;
 		S->at(t + (uint64_t)i * (f.dup_delay + 1), [S, c]() { S->deliver(c); });
 	}
+	for (auto &r : f.redeliv) {
+		Dgram c = d;
+		c.redelivery = true;
+		if (r.idxor && c.data.size() >= 2) {
+			uint16_t oid = (uint16_t)((c.data[0] << 8) | c.data[1]), id = (uint16_t)(oid ^ r.idxor); if (!id) id = 1;
+			c.data[0] = id >> 8; c.data[1] = id & 255; S->count("fault.redeliver.newid");
+			S->rd_idmap[{c.src.str(), id}] = oid;
+			if (S->rd_idmap.size() > 2000) S->rd_idmap.erase(S->rd_idmap.begin());
+		}
+		if (r.recase) { recase_qname(c.data, r.recase); S->count("fault.redeliver.recase"); }
+		if (r.altsrc) { if (c.src.fam == AF_INET) { c.src.a[2] ^= 0x40; c.src.a[3] ^= 0x15; } else c.src.a[15] ^= 0x15; S->count("fault.redeliver.altsrc"); }
+		S->count("fault.redeliver");
+		S->at(t + r.delay, [S, c]() { if (S->redeliver_gate && !S->redeliver_gate(c)) { S->count("fault.redeliver.outside_window"); return; } S->deliver(c); });
+	}
 }
 
 void Sim::send_from(Sock *s, const Addr &dst, const Bytes &data)
@@ -457,7 +513,7 @@ void Sim::send_from(Sock *s, const Addr &dst, const Bytes &data)
 		a.port = s->local.port;
 		d.src = a;
 	}
-	tracef("SEND %s -> %s len=%zu %s", d.src.str().c_str(), dst.str().c_str(), data.size(), hexs(data, 24).c_str());
+	if (trace) tracef("SEND %s -> %s len=%zu %s", d.src.str().c_str(), dst.str().c_str(), data.size(), trace_decode ? trace_decode(data).c_str() : hexs(data, 24).c_str());
 	fp_mix_str("send"); fp_mix_u64(s->host); fp_mix_u64(dst.port); fp_mix(dst.a, 16); fp_mix(data.data(), data.size());
 	for (auto m : monitors) m->on_send(d, s);
 	route(this, std::move(d));
